@@ -123,12 +123,13 @@ PROPS = {
                          "history). Monitors tied to the model for ALL event lists and configurations (model_satisfies_monitors, FULL statement proved, and "
                          "model_run_check_clean for run_check_keyed): on the model's own observations no clause is ever false - 7/1 7/2 7/3 7/4 (the monitors' "
                          "incarnations name the model's lineages; a live instance was started under the root the container holds), 7/5 (a retry obligation is the "
-                         "pending retry timer of the record registered under the key; the monitors' back-off index is the record's; a due timer has fired after the "
+                         "pending retry timer of the record registered under the key; it survives ClearContext / SetContext(nil) / a dropped cancelled root and is "
+                         "consumed when its callback runs without a live context; the monitors' back-off index is the record's; a due timer has fired after the "
                          "eager schedule), 7/6 7/7 (a key registered in the model is never gone for the reference machine: a due pending removal has its callback "
                          "parked), 7/9, and all of 6/*.",
                     note=NOTE + "Retry liveness is stated per step (fires when due; callback restarts) and monitored on every trace; 'retried while "
-                                "wanted' holds for intervals in which the container holds a context that its owner has not cancelled (ClearContext cancels the "
-                                "obligation; under a cancelled root a run would end at once). A stale "
+                                "wanted' : a pending retry survives ClearContext / SetContext(nil) and a cancelled root being dropped (non-restarting calls); at its deadline "
+                                "it must be parked/carried out if the container then holds a live context; if its callback runs without one the retry is consumed (the code checks k.ctx != nil). A stale "
                                 "retry callback (fired before a manual restart, run after it) restarts the routine early, also after a success - "
                                 "the keyed analogue of routine's D20; not covered by C07's text, reported as an observation.",
                     technique=_TECH)),
